@@ -11,6 +11,8 @@ def check(run):
         ast, _ = crules.unit(run, ndebug=nd)
         crules.order_rules(run, None, r1, ast)
         crules.next_rules(run, r2, r3, ast)
+        run.rule("C03-best", "best(): the per-pair elimination step used to pick next among the candidates", floor=3)
+        crules.best_rules(run, "C03-best", ast)
     run.assumptions += ["that best() returns the most specific elements of its argument for every lattice is a value computed by a graph algorithm: not decided",
                         "the pointer registered as info.next is the definition's own `next` variable (macros / add_definition): type-level, see C20 add_definition witnesses"]
     return run.finish(level="other", explanation="AST decision tables (path enumeration over a finite abstract domain) for is_base and for the selection of the value "
